@@ -46,3 +46,29 @@ Proof. intro H. destruct m; [congruence| |]; simpl; auto. Qed.
 Lemma no_method_no_pkce sha256 rnd :
   oauth_start_pkce sha256 PkceNone rnd = {| st_verifier := []; st_challenge := None |}.
 Proof. reflexivity. Qed.
+
+(* ---- the method as configured (a string) ---- *)
+Lemma str_eqb_eq' a b : str_eqb a b = true -> a = b.
+Proof. apply str_eqb_eq. Qed.
+
+(* a method string that is neither empty, "S256" nor "plain" starts no login: nothing is sent *)
+Lemma unknown_method_refused sha256 m rnd :
+  m <> [] -> m <> s "S256" -> m <> s "plain" -> start_by_string sha256 m rnd = None.
+Proof.
+  intros H0 H1 H2. unfold start_by_string, method_of_string. destruct m as [|c r]; [congruence|].
+  destruct (str_eqb (c :: r) (s "S256")) eqn:E1; [apply str_eqb_eq' in E1; congruence|].
+  destruct (str_eqb (c :: r) (s "plain")) eqn:E2; [apply str_eqb_eq' in E2; congruence|]. reflexivity.
+Qed.
+
+(* what IS sent carries the verifier as its challenge only under the method "plain" - or if the verifier happened to
+   be a fixed point of the S256 derivation *)
+Lemma verifier_in_clear_only_plain sha256 m rnd st :
+  start_by_string sha256 m rnd = Some st -> st_challenge st = Some (st_verifier st) ->
+  m = s "plain" \/ rawurl_encode (sha256 (st_verifier st)) = st_verifier st.
+Proof.
+  unfold start_by_string, method_of_string. intros H Hc. destruct m as [|c r].
+  - inversion H; subst. cbn in Hc. discriminate.
+  - destruct (str_eqb (c :: r) (s "S256")) eqn:E1.
+    + inversion H; subst. cbn in Hc. right. inversion Hc as [Hx]. rewrite Hx. exact Hx.
+    + destruct (str_eqb (c :: r) (s "plain")) eqn:E2; [|discriminate]. left. apply str_eqb_eq'. exact E2.
+Qed.
